@@ -24,47 +24,58 @@ def programJson (p : Program) : Json :=
 def beforeName : Before → String
   | .none => "" | .plus => "+" | .minus => "-" | .dots => "..."
 
-/-- Apply `f` to every string of the array `k` of the request. -/
-def mapStrs (k : String) (f : Str → Json) : Handler := fun j => do
+/-- The oracle of a request: the non-ASCII characters (other than `…`) that the real `regex` module
+calls word characters (`"word"`) and white space (`"space"`), computed by the harness on the input. -/
+def oracleOf (j : Json) : CharOracle :=
+  let get := fun k => match j.getObjValAs? String k with
+    | .ok s => s.toList
+    | .error _ => []
+  let w := get "word"
+  let sp := get "space"
+  ⟨fun c => w.contains c, fun c => sp.contains c⟩
+
+/-- Apply `f` (given the oracle of the request) to every string of the array `k` of the request. -/
+def mapStrs (k : String) (f : CharOracle → Str → Json) : Handler := fun j => do
   let a ← getArr j k
   let l ← a.toList.mapM fun x => x.getStr?
-  pure (Json.mkObj [("r", Json.arr (l.map fun s => f s.toList).toArray)])
+  let O := oracleOf j
+  pure (Json.mkObj [("r", Json.arr (l.map fun s => f O s.toList).toArray)])
 
 /-- `c12.get_program`: `⟦get_program⟧` on each source. -/
-def getProgramH : Handler := mapStrs "srcs" fun s =>
-  match getProgram s with
+def getProgramH : Handler := mapStrs "srcs" fun O s =>
+  match (getProgram O) s with
   | .ok p => programJson p
   | .error e => exc e
 
-def centrifugateH : Handler := mapStrs "srcs" fun s =>
-  match centrifugate s with
+def centrifugateH : Handler := mapStrs "srcs" fun O s =>
+  match (centrifugate O) s with
   | .ok c => Json.mkObj [("r", str c)]
   | .error e => exc e
 
-def collectH : Handler := mapStrs "srcs" fun s =>
-  match collectHints s with
+def collectH : Handler := mapStrs "srcs" fun O s =>
+  match (collectHints O) s with
   | .ok (a, d) => Json.mkObj [("addition", schedJson a), ("deletion", schedJson d)]
   | .error e => exc e
 
-def normLineH : Handler := mapStrs "lines" fun s => str (normLine s)
-def trimEndsH : Handler := mapStrs "srcs" fun s => str (trimEnds s)
+def normLineH : Handler := mapStrs "lines" fun O s => str ((normLine O) s)
+def trimEndsH : Handler := mapStrs "srcs" fun O s => str ((trimEnds O) s)
 
-def removeHintsH : Handler := mapStrs "srcs" fun s => str (removeHints s)
+def removeHintsH : Handler := mapStrs "srcs" fun O s => str ((removeHints O) s)
 
-def matchLabelH : Handler := mapStrs "toks" fun s =>
-  match matchLabel s with
+def matchLabelH : Handler := mapStrs "toks" fun O s =>
+  match (matchLabel O) s with
   | some (b, l, a) => Json.arr #[Json.str (beforeName b), str l, Json.bool a]
   | none => Json.null
 
-def isolatedH : Handler := mapStrs "lines" fun s =>
-  match isolatedRest s with
+def isolatedH : Handler := mapStrs "lines" fun O s =>
+  match (isolatedRest O) s with
   | some r => str r
   | none => Json.null
 
 /-- `line.partition("# paroxython: ")` then `.split()`: `null` when the separator is absent. -/
-def hintTokensH : Handler := mapStrs "lines" fun s =>
+def hintTokensH : Handler := mapStrs "lines" fun O s =>
   match partitionAt m14 s with
-  | some p => Json.arr #[str p.1, Json.arr ((splitWs p.2).map str).toArray]
+  | some p => Json.arr #[str p.1, Json.arr (((splitWs O) p.2).map str).toArray]
   | none => Json.null
 
 /-! ### Specification side: decorated programs -/
@@ -117,6 +128,7 @@ def sspanJson (p : SSpan) : Json := Json.arr #[Json.bool p.1, Json.num p.2.1, Js
 whether the hypotheses of C12_roundtrip hold of it, and what its hints say, label by label, on the
 normalised program (`normalised`, `events`, `balSpans`, `noTie`). -/
 def specDecorate : Handler := fun j => do
+  let O := oracleOf j
   let d ← (← getArr j "lines").toList.mapM parseLine
   let plain := d.map Prod.fst
   let nd := normalised d
@@ -127,16 +139,16 @@ def specDecorate : Handler := fun j => do
       ("spans", match balSpans ev with
         | some r => Json.arr (r.map sspanJson).toArray
         | none => Json.null)]
-  let linesOk := (codeLines plain).all okCode && (wholeLabels plain).all cleanLabel && looseOk plain
-  pure (Json.mkObj [("src", str (decorateS d)), ("hygienic", Json.bool (linesOk && !(codeLines nd).isEmpty)),
-    ("lines_ok", Json.bool linesOk),
-    ("base", str (stripPy (joinNL (base nd)))), ("nlines", Json.num (codeLines nd).length), ("labels", Json.arr per.toArray)])
+  let linesOkB := (codeLines plain).all (okCode O) && (wholeLabels plain).all (cleanLabel O) && (looseOk O) plain
+  pure (Json.mkObj [("src", str (decorateS d)), ("hygienic", Json.bool (linesOkB && !(codeLines nd).isEmpty)),
+    ("lines_ok", Json.bool linesOkB),
+    ("base", str ((stripPy O) (joinNL (base nd)))), ("nlines", Json.num (codeLines nd).length), ("labels", Json.arr per.toArray)])
 
 /-- `c12.spec_malformed`: for each source, whether the hint tokens of its centrifugated text are
 malformed (`malformedB`) and tie-free (`tieFreeB`). -/
-def specMalformed : Handler := mapStrs "srcs" fun s =>
-  match centrifugate (prepare s) with
-  | .ok c => Json.mkObj [("malformed", Json.bool (malformedB (hintToks c)))]
+def specMalformed : Handler := mapStrs "srcs" fun O s =>
+  match (centrifugate O) ((prepare O) s) with
+  | .ok c => Json.mkObj [("malformed", Json.bool ((malformedB O) ((hintToks O) c)))]
   | .error e => exc e
 
 /-! ### Parser glue -/
@@ -205,7 +217,7 @@ def getBindingsH : Handler := fun j => do
     | .error _ => pure (Json.mkObj [("exc", "ValueError")])
 
 /-- `c12.error_span`: the span of the `ast_construction:*` label and the number of lines. -/
-def errorSpanH : Handler := mapStrs "srcs" fun s =>
+def errorSpanH : Handler := mapStrs "srcs" fun O s =>
   Json.arr #[Json.num (errorSpan s).1, Json.num (errorSpan s).2, Json.num (lineCount s)]
 
 def handlers : List (String × Handler) :=
